@@ -1,0 +1,85 @@
+//go:build verif
+
+// Contracts for package acpi, read as text by /verif/engine (govc); no code.
+
+package acpi
+
+//@ mode bv
+
+// 8-bit sum of the k bytes at a in memory m (the ACPI checksum); a table is
+// valid iff its bytes sum to zero
+//@ ufun sum8(m memory, a uintptr, k uint32) uint8
+//@ axiom sum8Z(m memory, a uintptr): sum8(m, a, 0) == 0
+//@ axiom sum8S(m memory, a uintptr, k uint32): sum8(m, a, k+1) == sum8(m, a, k) + memat8(m, a + uintptr(k))
+//@ pred okTable(m memory, a uintptr, n uint32) = sum8(m, a, n) == 0
+
+//@ func validTable(tablePtr uintptr, tableLength uint32) (ok bool)
+//@   property C14
+//@   requires tablePtr + uintptr(tableLength) >= tablePtr
+//@   reads mem(tablePtr, tablePtr + uintptr(tableLength))
+//@   ensures ok <==> okTable(mem, tablePtr, tableLength)
+//@   at entry: use sum8Z(mem, tablePtr)
+//@   loop 1 (i < tableLength) invariant i <= tableLength && sum == sum8(mem, tablePtr, i)
+//@   loop 1 use sum8S(mem, tablePtr, i)
+//@   loop 1 decreases tableLength - i
+
+// errors produced by the vmm layer are different objects from this package's
+// private error values (assumption, stated as a precondition where needed)
+//@ pred foreignErrs() = !vmm.vmmError(errTableChecksumMismatch) && !vmm.vmmError(errMissingRSDP)
+
+//@ func mapACPITable(tableAddr uintptr) (header *table.SDTHeader, sizeofHeader uintptr, err *kernel.Error)
+//@   property C14
+//@   raw header
+//@   requires tableAddr < 0x1000000000000 && vmm.mapCalls < 0x2000000000000000 && foreignErrs()
+//@   modifies vmm.mapCalls, vmm.mapLogPage, vmm.mapLogFrame, vmm.mapLogFlags, vmm.pageTables
+//@   ensures hdr: sizeofHeader == 36
+//@   ensures valid: err == nil ==> addrof(header) == tableAddr && okTable(mem, tableAddr, mem32(tableAddr+4))
+//@   ensures mismatch: err == errTableChecksumMismatch ==> addrof(header) == tableAddr && !okTable(mem, tableAddr, mem32(tableAddr+4))
+//@   ensures other: err != nil && err != errTableChecksumMismatch ==> isnil(header) && vmm.vmmError(err)
+//@   ensures calls: vmm.mapCalls >= old(vmm.mapCalls) && vmm.mapCalls - old(vmm.mapCalls) <= 0x200000
+
+// the root table at a lists n 32- or 64-bit physical addresses after its 36-byte header
+//@ spec rootCount(a uintptr, x bool) uint32 = ite(x, (mem32(a+4) - 36) >> 3, (mem32(a+4) - 36) >> 2)
+//@ spec rootEntry(a uintptr, x bool, k uintptr) uintptr = ite(x, uintptr(mem64(a + 36 + k*8)), uintptr(mem32(a + 36 + k*4)))
+// well-formed root table: it has at least a header, and it and the tables it lists lie in the physical address space
+//@ pred wfRoot(a uintptr, x bool) = a < 0x1000000000000 && mem32(a+4) >= 36 && forall(k, uintptr, k < uintptr(rootCount(a, x)) ==> rootEntry(a, x, k) < 0x1000000000000)
+
+//@ func (drv *acpiDriver) enumerateTables(w io.Writer) (err *kernel.Error)
+//@   property C14
+//@   requires drv != nil && foreignErrs() && vmm.mapCalls < 0x10000000000 && wfRoot(drv.rsdtAddr, drv.useXSDT)
+//@   modifies drv.tableMap, vmm.mapCalls, vmm.mapLogPage, vmm.mapLogFrame, vmm.mapLogFlags, vmm.pageTables
+//@   at mapupdate 1: assert registered: okTable(mem, addrof(value), value.Length) && dataptr(key) == addrof(value) && len(key) == 4
+//@   at call mapACPITable 3: assert dsdt: dsdtAddr == ite(acpiRev >= 2, uintptr(mem64(addrof(header)+140)), uintptr(mem32(addrof(header)+40)))
+//@   at mapupdate 2: assert registeredDsdt: okTable(mem, addrof(value), value.Length) && dataptr(key) == addrof(value) && len(key) == 4
+//@   loop 1 (i < len(sdtAddresses)) invariant 0 <= i && i <= len(sdtAddresses) && curPtr == drv.rsdtAddr + 36 + uintptr(i)*8 && len(sdtAddresses) == int(rootCount(drv.rsdtAddr, true))
+//@   loop 1 invariant filled: forall(k, int, 0 <= k && k < i ==> sdtAddresses[k] == rootEntry(drv.rsdtAddr, true, uintptr(k)))
+//@   loop 2 (i < len(sdtAddresses)) invariant 0 <= i && i <= len(sdtAddresses) && curPtr == drv.rsdtAddr + 36 + uintptr(i)*4 && len(sdtAddresses) == int(rootCount(drv.rsdtAddr, false))
+//@   loop 2 invariant filled: forall(k, int, 0 <= k && k < i ==> sdtAddresses[k] == rootEntry(drv.rsdtAddr, false, uintptr(k)))
+//@   loop 3 (range sdtAddresses) invariant listed: forall(k, int, 0 <= k && k < len(sdtAddresses) ==> sdtAddresses[k] == rootEntry(drv.rsdtAddr, drv.useXSDT, uintptr(k))) && len(sdtAddresses) == int(rootCount(drv.rsdtAddr, drv.useXSDT))
+//@   loop 3 invariant calls: vmm.mapCalls < 0x10000000000 + 0x800000*uintptr(rangeindex+2) && rangeindex >= -1 && rangeindex < len(sdtAddresses)
+//@   loop 3 inbody use rangeindex+1 >= 0 && rangeindex+1 < len(sdtAddresses); sdtAddresses[rangeindex+1] == rootEntry(drv.rsdtAddr, drv.useXSDT, uintptr(rangeindex+1)); sdtAddresses[rangeindex+1] < 0x1000000000000
+
+// ---- root pointer search -------------------------------------------------------------
+// candidate addresses: 16-byte aligned, in the BIOS search area [0xe0000, 0xfffff)
+//@ pred isCand(a uintptr) = a >= 0xe0000 && a < 0xfffff && a&15 == 0
+//@ pred sigAt(a uintptr) = mem8(a) == 'R' && mem8(a+1) == 'S' && mem8(a+2) == 'D' && mem8(a+3) == ' ' && mem8(a+4) == 'P' && mem8(a+5) == 'T' && mem8(a+6) == 'R' && mem8(a+7) == ' '
+// a root pointer is valid if it carries the signature and its checksum holds: over the 20-byte
+// structure for revision 0, over the 36-byte extended structure otherwise (ACPI 6.2, 5.2.5.3)
+//@ pred validRSDP(a uintptr) = sigAt(a) && ite(mem8(a+15) == 0, okTable(mem, a, 20), okTable(mem, a, 36))
+
+//@ func locateRSDT$1()
+//@   property C14
+//@   modifies vmm.pageTables
+//@   loop 1 (curPage <= mm.PageFromAddress(rsdpLocationHi)) invariant true
+
+//@ func locateRSDT() (addr uintptr, useXSDT bool, err *kernel.Error)
+//@   property C14
+//@   requires vmm.mapCalls < 0x1000000000000 && foreignErrs()
+//@   modifies vmm.mapCalls, vmm.mapLogPage, vmm.mapLogFrame, vmm.mapLogFlags, vmm.pageTables
+//@   ensures first: forall(a, uintptr, isCand(a) && validRSDP(a) && forall(c, uintptr, isCand(c) && c < a ==> !validRSDP(c)) ==> (err == nil || vmm.vmmError(err)) && (err == nil ==> useXSDT == (mem8(a+15) != 0) && addr == ite(mem8(a+15) == 0, uintptr(mem32(a+16)), uintptr(mem64(a+24)))))
+//@   ensures none: forall(c, uintptr, isCand(c) ==> !validRSDP(c)) ==> err == errMissingRSDP || vmm.vmmError(err)
+//@   ensures found: err == nil ==> exists(a, uintptr, isCand(a) && validRSDP(a))
+//@   loop 1 (curPage <= mm.PageFromAddress(rsdpLocationHi)) invariant vmm.mapCalls < 0x1000000000000 + uintptr(curPage)
+//@   loop 2 (curPtr < rsdpLocationHi) invariant scan: curPtr >= 0xe0000 && curPtr&15 == 0 && curPtr <= 0x100000 && forall(c, uintptr, isCand(c) && c < curPtr ==> !validRSDP(c))
+//@   loop 3 (range rsdpSignature) invariant rangeindex >= -1 && rangeindex < 8 && addrof(rsdp) == curPtr
+//@   loop 3 invariant (rangeindex >= 0 ==> mem8(curPtr) == 'R') && (rangeindex >= 1 ==> mem8(curPtr+1) == 'S') && (rangeindex >= 2 ==> mem8(curPtr+2) == 'D') && (rangeindex >= 3 ==> mem8(curPtr+3) == ' ') && (rangeindex >= 4 ==> mem8(curPtr+4) == 'P') && (rangeindex >= 5 ==> mem8(curPtr+5) == 'T') && (rangeindex >= 6 ==> mem8(curPtr+6) == 'R') && (rangeindex >= 7 ==> mem8(curPtr+7) == ' ')
